@@ -48,6 +48,11 @@ def plan(seed, tier):
             w = [1, 3, 8][hi % 3]
             cases.append({"class": "api", "group": g, "hashseed": hs, "workers": w, "env": {"PYTHONHASHSEED": hs},
                           "repeat": bool(hi == 0), "cost": 20})
+    # ensemble scoring through the API (every fold model scores every PSM; averaged) under varied worker counts
+    for g in ([200] if tier == "quick" else [200, 201, 202]):
+        for hi, hs in enumerate(["0", "1", "random"]):
+            cases.append({"class": "api", "group": g, "hashseed": hs, "workers": [1, 3, 8][hi], "env": {"PYTHONHASHSEED": hs},
+                          "repeat": False, "ensemble": True, "cost": 20})
     ncli = 1 if tier == "quick" else 3
     for g in range(ncli):
         for hs in (["0", "random"] if tier == "quick" else ["0", "1", "random"]):
@@ -114,7 +119,11 @@ def run_api(case):
     res = Result(case, key=f"api/{case['group']}")
     with core.scratch("c08") as d:
         spec, meta = build_api(case, d, case["seed"])
-        spec.update(dest=str(d / "out"), workers=case["workers"])
+        spec.update(dest=str(d / "out"), workers=case["workers"], ensemble=bool(case.get("ensemble")))
+        if case.get("ensemble"):
+            spec.update(folds=4, delay=0.01)
+            spec.pop("percolator", None)
+            spec.setdefault("learner", "svc")
         # several tasks per Parallel call in every run of the group (same configuration: only the session varies)
         spec["chunk_sizes"] = {"CHUNK_SIZE_READ_ALL_DATA": 97, "CONFIDENCE_CHUNK_SIZE": 131}
         if case["workers"] > 1:
